@@ -1,5 +1,6 @@
 import UrcuVerif.Handshake.Tso
 import UrcuVerif.Handshake.QsbrTso
+import UrcuVerif.Handshake.WaitNode
 import UrcuVerif.Src.ReadLocal
 import UrcuVerif.CallRcu.Wake
 import UrcuVerif.Defer.ConcWake
@@ -881,5 +882,130 @@ theorem simK (s : GKState) (l : GKLabel) (s' : GKState) (h : gkstep s l = some s
     simp_all [runA, gk2l, kstep, kMap]
 
 end Df
+
+/-! ## `Handshake/WaitNode.lean` (wait nodes of `src/urcu-wait.h`): one leader / waiter pair per node -/
+
+namespace Wn
+open WaitNode
+
+/-! ### waiter (`urcu_adaptative_busy_wait`) -/
+
+inductive WLabel
+  | wSeeWaiting | wSleep | wEagain | woken | wSeeWoken | wOrRunning | wSeeTeardown
+  deriving DecidableEq, Repr
+
+def WLabel.toL2 : WLabel → Label
+  | .wSeeWaiting => .wSeeWaiting | .wSleep => .wSleep | .wEagain => .wEagain | .woken => .wSpurious
+  | .wSeeWoken => .wSeeWoken | .wOrRunning => .wOrRunning | .wSeeTeardown => .wSeeTeardown
+
+def lstep (pc : WPc) : WLabel → Option WPc
+  | .wSeeWaiting => if pc = .spin then some .spin else none
+  | .wSleep => if pc = .spin then some .sleep else none
+  | .wEagain => if pc = .spin then some .orRun else none
+  | .woken => if pc = .sleep then some .spin else none
+  | .wSeeWoken => if pc = .spin then some .orRun else none
+  | .wOrRunning => if pc = .orRun then some .waitTd else none
+  | .wSeeTeardown => if pc = .waitTd then some .returned else none
+
+/-- the non-local part of the waiter's guards: what the labels observe of the state word -/
+def GuardW (s : State) : WLabel → Prop
+  | .wSeeWaiting | .wSleep => s.wakeup = false
+  | .wEagain | .wSeeWoken => s.wakeup = true
+  | .wSeeTeardown => s.teardown = true
+  | _ => True
+
+def ownedW : Label → Bool
+  | .wSeeWaiting | .wSleep | .wEagain | .wSpurious | .wSeeWoken | .wOrRunning | .wSeeTeardown => true
+  | _ => false
+
+def wakeEffect (pc : WPc) : WPc := if pc = .sleep then .spin else pc
+
+theorem projW_step (s s' : State) (l : WLabel) (st : step s l.toL2 = some s') :
+    lstep s.wpc l = some s'.wpc ∧ GuardW s l := by
+  cases l <;> simp only [WLabel.toL2, step] at st <;> (repeat' split at st) <;>
+    first
+    | (simp at st; done)
+    | (simp only [Option.some.injEq] at st; subst st; simp_all [lstep, GuardW])
+
+theorem projW_enabled (s : State) (l : WLabel) (pc' : WPc) (hl : lstep s.wpc l = some pc') (hg : GuardW s l) :
+    ∃ s', step s l.toL2 = some s' ∧ s'.wpc = pc' := by
+  cases l <;> simp only [lstep] at hl <;> (repeat' split at hl) <;>
+    first
+    | (simp at hl; done)
+    | (simp only [Option.some.injEq] at hl; subst hl; simp_all [GuardW, WLabel.toL2, step])
+
+/-- the leader's `lStore lLoad lSkipWake lTeardown` and the memory system's `lFlush` leave the waiter's pc unchanged -/
+theorem projW_frame (s s' : State) (l : Label) (st : step s l = some s') (ho : ownedW l = false) (hw : l ≠ .lWake) :
+    s'.wpc = s.wpc := by
+  cases l <;> simp only [step] at st <;> (repeat' split at st) <;>
+    first
+    | (simp at st; done)
+    | (simp only [Option.some.injEq] at st; subst st; simp_all [ownedW, touch])
+
+/-- the leader's FUTEX_WAKE acts on the waiter's pc like `woken` if it is asleep, not at all otherwise -/
+theorem projW_env_wake (s s' : State) (st : step s .lWake = some s') :
+    s'.wpc = wakeEffect s.wpc ∧ (s.wpc = .sleep → lstep s.wpc .woken = some s'.wpc) := by
+  simp only [step] at st
+  split at st
+  · simp only [Option.some.injEq] at st; subst st
+    refine ⟨?_, ?_⟩
+    · by_cases hs : s.wpc = .sleep <;> simp [wakeEffect, touch, hs]
+    · intro hs; simp [lstep, touch, hs]
+  · simp at st
+
+/-! ### leader (`urcu_adaptative_wake_up`) -/
+
+/-- `lLoad b`: loaded the state word, saw RUNNING = `b` -/
+inductive KLabel
+  | lStore | lLoad (b : Bool) | lWake | lSkipWake | lTeardown
+  deriving DecidableEq, Repr
+
+def KLabel.toL2 : KLabel → Label
+  | .lStore => .lStore | .lLoad _ => .lLoad | .lWake => .lWake | .lSkipWake => .lSkipWake | .lTeardown => .lTeardown
+
+def kstep (pc : LPc) : KLabel → Option LPc
+  | .lStore => if pc = .l0 then some .l1 else none
+  | .lLoad b => if pc = .l1 then some (.l2 b) else none
+  | .lWake => if pc = .l2 false then some .l3 else none
+  | .lSkipWake => if pc = .l2 true then some .l3 else none
+  | .lTeardown => if pc = .l3 then some .ldone else none
+
+/-- the load is forwarded from the leader's store buffer while its `state := WAKEUP` is pending -/
+def ObsK (s : State) : KLabel → Prop
+  | .lLoad b => b = if s.bufWakeup then false else s.running
+  | _ => True
+
+/-- FUTEX_WAKE (system call) and the locked `or` drain the store buffer first -/
+def GuardK (s : State) : KLabel → Prop
+  | .lLoad b => b = if s.bufWakeup then false else s.running
+  | .lWake | .lTeardown => s.bufWakeup = false
+  | _ => True
+
+def ownedK : Label → Bool
+  | .lStore | .lLoad | .lWake | .lSkipWake | .lTeardown => true
+  | _ => false
+
+theorem projK_step (s s' : State) (l : KLabel) (st : step s l.toL2 = some s') (ho : ObsK s l) :
+    kstep s.lpc l = some s'.lpc := by
+  cases l <;> simp only [KLabel.toL2, step] at st <;> (repeat' split at st) <;>
+    first
+    | (simp at st; done)
+    | (simp only [Option.some.injEq] at st; subst st; simp_all [ObsK, kstep, touch])
+
+theorem projK_enabled (s : State) (l : KLabel) (pc' : LPc) (hl : kstep s.lpc l = some pc') (hg : GuardK s l) :
+    ∃ s', step s l.toL2 = some s' ∧ s'.lpc = pc' ∧ ObsK s l := by
+  cases l <;> simp only [kstep] at hl <;> (repeat' split at hl) <;>
+    first
+    | (simp at hl; done)
+    | (simp only [Option.some.injEq] at hl; subst hl; simp_all [ObsK, GuardK, KLabel.toL2, step, touch])
+
+/-- the waiter's labels and `lFlush` leave the leader's pc unchanged -/
+theorem projK_frame (s s' : State) (l : Label) (st : step s l = some s') (ho : ownedK l = false) : s'.lpc = s.lpc := by
+  cases l <;> simp only [step] at st <;> (repeat' split at st) <;>
+    first
+    | (simp at st; done)
+    | (simp only [Option.some.injEq] at st; subst st; simp_all [ownedK, touch])
+
+end Wn
 
 end UrcuVerif.Src.Futex
